@@ -7,6 +7,7 @@ import Driver.C14_Avr
 import Driver.C14_Z80
 import Driver.C14_6502
 import Driver.C14_Msp430
+import Driver.C14_8080Z
 /-! Driver mode `c14`: one instruction statement per request line.
 
 request : `<target> <cpu> <pc> <MNEMONIC> <arg>* | <real>`   args = evaluated operand values (decimal, may be negative),
@@ -65,7 +66,8 @@ def targets : List (String Ã— (Nat â†’ Nat â†’ String â†’ List Int â†’ String â†
   ("msp430", hMsp430, formsMsp430),
   ("6502", h6502, forms6502),
   ("z80", hZ80, formsZ80),
-  ("avr", hAvr, formsAvr)
+  ("avr", hAvr, formsAvr),
+  ("8080z", fun c _ mn as real => h8080Z c mn as real, forms8080Z)
 ]
 
 /-- mode `c14forms`: the SPEC's mnemonic list with operand form and minimum CPU, for the generator -/
